@@ -92,7 +92,32 @@ def chk_history(seqs):
     return None
 
 
-CHECKS = {'omega': chk_omega, 'groups': chk_groups, 'history': chk_history}
+def chk_kx_history(inp):
+    """a series of get_kappa_X calls on ONE object, with groupings that share letters but split them differently: every answer equals that of a fresh object"""
+    seq, seed = inp
+    rng = random.Random(seed)
+    o = sp(seq)
+    letters = sorted(set(seq)) + ['K', 'E']
+    calls = [(['D', 'E', 'K', 'R'], None), (['E', 'D'], ['K', 'R']), (['K', 'R'], ['E', 'D']), (['D', 'E', 'K'], ['R'])]
+    for _ in range(4):
+        pool = rng.sample(letters, min(len(letters), rng.randint(2, 5)))
+        pool = sorted(set(pool))
+        cut = rng.randint(0, len(pool))
+        a, b = pool[:cut], pool[cut:]
+        for g1, g2 in ((pool, None), (a, b), (b, a)):
+            if g1:
+                calls.append((list(g1), list(g2) if g2 else None))
+    rng.shuffle(calls)
+    for g1, g2 in calls:
+        args = (g1,) if g2 is None else (g1, g2)
+        got = outcome(o.get_kappa_X, *args)
+        exp = outcome(sp(seq).get_kappa_X, *args)
+        if got[0] != exp[0] or (got[0] == 'ok' and not close(got[1], exp[1], 1e-12, 1e-14)):
+            return 'get_kappa_X%r on %s after earlier get_kappa_X calls on the same object -> %r, a fresh object gives %r' % (args, seq, got, exp)
+    return None
+
+
+CHECKS = {'omega': chk_omega, 'groups': chk_groups, 'history': chk_history, 'kx_history': chk_kx_history}
 
 
 def work(seed, count):
@@ -110,6 +135,7 @@ def work(seed, count):
         p, q = rng.randint(1, 4), rng.randint(1, 4)
         hist.append([seq_of_composition(p, q, z, rng) for z in (0, 1, 3, n)])
     run_checks(r, 'history', chk_history, hist)
+    run_checks(r, 'kx_history', chk_kx_history, [(s, rng.randint(0, 10 ** 6)) for s in seqs[:count // 2] if len(s) >= 2])
     return r
 
 
